@@ -376,6 +376,10 @@ func (r *clientRun) main() {
 	hSleep(5 * time.Second)
 	hWaitQuiescent("client.after-close2")
 	r.probes["dials_after_close"] += int64(len(r.dials) - dialsAtClose)
+	if n := len(r.dials) - dialsAtClose; n > 0 {
+		simrt.Fail("C19-dial-after-close", "Close had returned and the client had come to rest, yet it dialled the server %d more time(s) in the next 5 s (first at %v, Close returned at %v): Close is not terminal",
+			n, r.dials[dialsAtClose].start, r.closeAt)
+	}
 	simrt.Recv(0, r.srv.Stop())
 	for _, pr := range r.net.Pairs() {
 		if !pr.IsReset {
@@ -422,12 +426,18 @@ func (r *clientRun) clientTask(i int, ops []CliOp) {
 			if invokedAfterClose && (st.OK() || st.Code != status.CodeClosed) {
 				simrt.Fail("C19-call-after-close", "Conn invoked after Close returned gave %s", stName(st))
 			}
+			if st.Code == status.CodeCancelled && !r.bg.Done() {
+				simrt.Fail("C19-pending-cancelled", "Conn returned %s although its caller's context was never cancelled (client closed=%v): a call pending across Close must report closed", stName(st), r.cl.Closed().IsSet())
+			}
 		case "channel":
 			invokedAfterClose := r.closed
 			ch, st := r.cl.Channel(r.bg)
 			simrt.Logf("cli%d Channel -> %s", i, stName(st))
 			if invokedAfterClose && (st.OK() || st.Code != status.CodeClosed) {
 				simrt.Fail("C19-call-after-close", "Channel invoked after Close returned gave %s", stName(st))
+			}
+			if st.Code == status.CodeCancelled && !r.bg.Done() {
+				simrt.Fail("C19-pending-cancelled", "Channel returned %s although its caller's context was never cancelled (client closed=%v): a call pending across Close must report closed", stName(st), r.cl.Closed().IsSet())
 			}
 			if !st.OK() {
 				continue
